@@ -12,12 +12,12 @@ open CprocVerif.LowerArith CprocVerif.LowerMach CprocVerif.LowerMem
 
 /-! ## Declared types are the variable types -/
 
-theorem wt_declTys (vtys : List CSem.Ty) (ret : CSem.Ty) (st : Stmt) : ∀ (lp : Bool) (nd nd' : Nat),
-    Stmt.wt vtys ret lp nd st = some nd' →
+theorem wt_declTys (vtys : List CSem.Ty) (ret : CSem.Ty) (st : Stmt) : ∀ (lb lc : Bool) (nd nd' : Nat),
+    Stmt.wt vtys ret lb lc nd st = some nd' →
     ∀ (k : Nat) (t : CSem.Ty), (declTys st)[k]? = some t → vtys[nd + k]? = some t := by
   induction st with
   | decl i t init =>
-    intro lp nd nd' h k t' hk
+    intro lb lc nd nd' h k t' hk
     simp only [Stmt.wt] at h
     split at h
     · rename_i hw
@@ -30,58 +30,61 @@ theorem wt_declTys (vtys : List CSem.Ty) (ret : CSem.Ty) (st : Stmt) : ∀ (lp :
       | succ k => simp at hk
     · cases h
   | seq a b iha ihb =>
-    intro lp nd nd' h k t hk
+    intro lb lc nd nd' h k t hk
     simp only [Stmt.wt] at h
     split at h
     · cases h
     · simp only [Option.bind_eq_some_iff] at h
       obtain ⟨n1, h1, h2⟩ := h
-      have hc := (wt_noDead _ _ a _ _ _ h1).2
+      have hc := (wt_noDead _ _ a _ _ _ _ h1).2
       simp only [declTys] at hk
       by_cases hka : k < (declTys a).length
       · rw [List.getElem?_append_left hka] at hk
-        exact iha lp nd n1 h1 k t hk
+        exact iha lb lc nd n1 h1 k t hk
       · rw [List.getElem?_append_right (by omega)] at hk
-        have := ihb lp n1 nd' h2 _ t hk
+        have := ihb lb lc n1 nd' h2 _ t hk
         rw [hc] at this
         have e : nd + (declTys a).length + (k - (declTys a).length) = nd + k := by omega
         rw [e] at this; exact this
   | ite e a iha =>
-    intro lp nd nd' h k t hk
+    intro lb lc nd nd' h k t hk
     simp only [Stmt.wt] at h
     split at h
-    · exact iha lp nd nd' h k t hk
+    · exact iha lb lc nd nd' h k t hk
     · cases h
   | itee e a b iha ihb =>
-    intro lp nd nd' h k t hk
+    intro lb lc nd nd' h k t hk
     simp only [Stmt.wt] at h
     split at h
     · simp only [Option.bind_eq_some_iff] at h
       obtain ⟨n1, h1, h2⟩ := h
-      have hc := (wt_noDead _ _ a _ _ _ h1).2
+      have hc := (wt_noDead _ _ a _ _ _ _ h1).2
       simp only [declTys] at hk
       by_cases hka : k < (declTys a).length
       · rw [List.getElem?_append_left hka] at hk
-        exact iha lp nd n1 h1 k t hk
+        exact iha lb lc nd n1 h1 k t hk
       · rw [List.getElem?_append_right (by omega)] at hk
-        have := ihb lp n1 nd' h2 _ t hk
+        have := ihb lb lc n1 nd' h2 _ t hk
         rw [hc] at this
         have e : nd + (declTys a).length + (k - (declTys a).length) = nd + k := by omega
         rw [e] at this; exact this
     · cases h
   | while_ e b ihb =>
-    intro lp nd nd' h k t hk
+    intro lb lc nd nd' h k t hk
     simp only [Stmt.wt] at h
     split at h
-    · exact ihb true nd nd' h k t hk
+    · exact ihb true true nd nd' h k t hk
     · cases h
   | dowhile b e ihb =>
-    intro lp nd nd' h k t hk
-    simp only [Stmt.wt, Option.bind_eq_some_iff] at h
-    obtain ⟨n1, h1, h2⟩ := h
-    exact ihb true nd n1 h1 k t hk
+    intro lb lc nd nd' h k t hk
+    simp only [Stmt.wt] at h
+    split at h
+    · simp only [Option.bind_eq_some_iff] at h
+      obtain ⟨n1, h1, h2⟩ := h
+      exact ihb true true nd n1 h1 k t hk
+    · cases h
   | for_ e step b ihs ihb =>
-    intro lp nd nd' h k t hk
+    intro lb lc nd nd' h k t hk
     simp only [Stmt.wt] at h
     split at h
     · rename_i hc
@@ -90,15 +93,23 @@ theorem wt_declTys (vtys : List CSem.Ty) (ret : CSem.Ty) (st : Stmt) : ∀ (lp :
       have hsd : declTys step = [] := by
         cases step <;> simp [Stmt.isSimple] at hc <;> rfl
       simp only [declTys, hsd, List.append_nil] at hk
-      exact ihb true nd n1 h1 k t hk
+      exact ihb true true nd n1 h1 k t hk
     · cases h
-  | skip => intro lp nd nd' h k t hk; simp [declTys] at hk
-  | assign i t e => intro lp nd nd' h k t hk; simp [declTys] at hk
-  | incdec i t inc => intro lp nd nd' h k t hk; simp [declTys] at hk
-  | expr e => intro lp nd nd' h k t hk; simp [declTys] at hk
-  | ret e => intro lp nd nd' h k t hk; simp [declTys] at hk
-  | break_ => intro lp nd nd' h k t hk; simp [declTys] at hk
-  | continue_ => intro lp nd nd' h k t hk; simp [declTys] at hk
+  | skip => intro lb lc nd nd' h k t hk; simp [declTys] at hk
+  | assign i t e => intro lb lc nd nd' h k t hk; simp [declTys] at hk
+  | incdec i t inc => intro lb lc nd nd' h k t hk; simp [declTys] at hk
+  | expr e => intro lb lc nd nd' h k t hk; simp [declTys] at hk
+  | ret e => intro lb lc nd nd' h k t hk; simp [declTys] at hk
+  | break_ => intro lb lc nd nd' h k t hk; simp [declTys] at hk
+  | continue_ => intro lb lc nd nd' h k t hk; simp [declTys] at hk
+  | case_ u => intro lb lc nd nd' h k t hk; simp [declTys] at hk
+  | default_ => intro lb lc nd nd' h k t hk; simp [declTys] at hk
+  | switch_ e b ihb =>
+    intro lb lc nd nd' h k t hk
+    simp only [Stmt.wt] at h
+    split at h
+    · exact ihb true lc nd nd' h k t hk
+    · cases h
 
 /-! ## Small facts about lists -/
 
@@ -329,7 +340,7 @@ theorem emit2_labels_nodup (cs : Bool) (startid : Nat) (f : CSem2.Func) (hnd : n
   exact h.2
 
 theorem lower2_correct_prog (cs : Bool) (startid : Nat) (f : CSem2.Func) (ρ : List Int) (v : Int)
-    (hwt : CSem2.WT f) (henv : EnvOK cs f.params ρ)
+    (hwt : CSem2.WT f) (hfr : frag f.body = true) (henv : EnvOK cs f.params ρ)
     (hsmall : f.params.length + f.locals.length ≤ 1000000)
     (fuelC : Nat) (hex : exec cs fuelC (initStore f ρ) f.body = some (.ret v))
     (p : Prog) (ext : Qbe.Ext)
@@ -339,8 +350,9 @@ theorem lower2_correct_prog (cs : Bool) (startid : Nat) (f : CSem2.Func) (ρ : L
       ∀ fuel, fuel₀ ≤ fuel →
         runFunc p ext f.name (argsOf f.params ρ) fuel = ⟨#[], .ret (.scalar r)⟩ := by
   have hlen := henv.1
-  simp only [CSem2.WT, CSem2.Func.wt, beq_iff_eq] at hwt
-  obtain ⟨hnd, hcount⟩ := wt_noDead _ _ _ _ _ _ hwt
+  simp only [CSem2.WT, CSem2.Func.wt, Bool.and_eq_true, beq_iff_eq] at hwt
+  obtain ⟨_, hwt⟩ := hwt
+  obtain ⟨hnd, hcount⟩ := wt_noDead _ _ _ _ _ _ _ hwt
   have g := funcstmt_good cs f.body "" "" (Lower2.bodyCtx startid f) rfl hnd
   obtain ⟨new, hslots, hnewlen, hnewrange, hallocs⟩ := g.slots
   have hsorted := g.sorted new hslots
@@ -453,7 +465,7 @@ theorem lower2_correct_prog (cs : Bool) (startid : Nat) (f : CSem2.Func) (ρ : L
     simp [Lower2.funcItems]
   obtain ⟨n2, env2, M2, hreach2, hainv2⟩ := run_allocs T (initStore f ρ) hsmall' hinc (declTys f.body) new
     f.params.length (spills f.params 0) _ env1 M1 hnewlen
-    (fun k t h => wt_declTys _ _ _ _ _ _ hwt k t h)
+    (fun k t h => wt_declTys _ _ _ _ _ _ _ hwt k t h)
     (fun k hk => hσl k (by omega))
     (fun k hk => initStore_local f (by omega) (by omega)) hits1 hpinv1.a
   -- the invariant of the body
@@ -499,8 +511,8 @@ theorem lower2_correct_prog (cs : Bool) (startid : Nat) (f : CSem2.Func) (ρ : L
     rw [hits1]
     simp only [Lower2.bodyOut, List.append_assoc, List.singleton_append, List.append_nil]
     rfl
-  have hpost := sim_stmt T fuelC f.body (initStore f ρ) (.ret v) false "" "" (Lower2.bodyCtx startid f)
-    f.params.length f.vtys.length _ [] env2 M2 hex (frag_all _) hwt hpos hext hitsB (by intro h; cases h) hinv
+  have hpost := sim_stmt T fuelC f.body (initStore f ρ) (.ret v) (false, false) "" "" (Lower2.bodyCtx startid f)
+    f.params.length f.vtys.length _ [] env2 M2 hex hfr hwt hpos hext hitsB ⟨(by intro h; cases h), (by intro h; cases h)⟩ hinv
   obtain ⟨n3, hret⟩ := hpost
   have hfin : ∃ st r, T.Reach n3 (T.at env2 M2 (spills f.params 0 ++
       List.zipWith allocIns (declTys f.body) new ++ [.lbl none (bodyLabel startid) []])) st ∧
